@@ -20,7 +20,7 @@ RULE = ("kinds: hatvee (vectors of length 1/3/6 incl. exact integers: vex(skew v
         "tr2delta/delta2tr round trip, two-argument form, first-order agreement with log, SE3.delta/Delta). "
         "Non-trivial: |t|>10 and rotation about a non-coordinate axis (adjoint), all components non-zero (hatvee), "
         "rotational and translational parts both non-zero (delta).")
-RULE = RULE + probes.RULE_TEXT + (probes.AUG_TEXT if PROPERTY_ID in probes.AUG_PROPS else "") + probes.VARIANT_TEXT
+RULE = RULE + probes.RULE_TEXT + (probes.AUG_TEXT if PROPERTY_ID in probes.AUG_PROPS else "") + probes.VARIANT_TEXT + probes.OWN_TEXT
 ASSUMPTIONS = ["scipy.linalg.expm (6x6) and NumPy linear algebra are trusted; reference adjoint/exponential formulas in pbt/refs.py are cross-checked against mpmath at start-up",
                "tolerance 1e-9 (1e-7 where a twist exponential is involved) relative to max(1,|t|) and to the magnitude of the twist operand"]
 
@@ -49,7 +49,8 @@ def s_hatvee():
     }).flatmap(lambda d: st.fixed_dictionaries({
         "kind": st.just("hatvee"), "n": st.just(d["n"]), "form": st.just(d["form"]),
         "u": small(d["n"]) if ":" in d["form"] else _vec(d["n"]), "v": small(d["n"]) if ":" in d["form"] else _vec(d["n"]),
-        "a": st.integers(-50, 50).map(float), "b": st.integers(-50, 50).map(float)}))
+        "a": st.integers(-50, 50).map(float), "b": st.integers(-50, 50).map(float),
+        "zero": st.sampled_from([None, None, None, None, "rot", "trans", "all"])}))
 
 
 def gen_hatvee_dtypes(tier):
@@ -106,7 +107,7 @@ def _form(v, form):
 
 
 def check_case(case):
-    if case.get("kind") in ("hist", "aug", "variant"):
+    if case.get("kind") in ("hist", "aug", "variant", "own"):
         return probes.run(case, PROPERTY_ID)
     return {"hatvee": _hatvee, "adjoint": _adjoint, "delta": _delta}[case["kind"]](case)
 
@@ -115,8 +116,29 @@ def _hatvee(case):
     b = L.base
     n = case["n"]
     c = Checker("hatvee", n=n)
+    z = case.get("zero")
+    if z:
+        # exactly zero rotational / translational part or the zero element: valid members of the algebra like any other
+        uu = list(case["u"])
+        for i in range(n):
+            rot_i = i >= (n // 2 if n == 6 else n - 1)
+            if z == "all" or (z == "rot" and rot_i) or (z == "trans" and not rot_i):
+                uu[i] = 0.0
+        case = dict(case, u=uu)
+        c.feat(zero=z)
     u, v = arr(case["u"]), arr(case["v"])
     fu = _form(case["u"], case["form"])
+    # the documented check option accepts every exactly skew-symmetric (augmented) matrix and returns the same vector
+    if n in (1, 3):
+        for site, f in (("vex(check=True)", lambda: b.vex(b.skew(np.array(u)), check=True)), ("vex(check,positional)", lambda: b.vex(b.skew(np.array(u)), True))):
+            okk, rk = c.lib(site, f)
+            if okk:
+                c.eq(site + "/value", rk, u, 0)
+    if n in (3, 6):
+        for site, f in (("vexa(check=True)", lambda: b.vexa(b.skewa(np.array(u)), check=True)), ("vexa(check,positional)", lambda: b.vexa(b.skewa(np.array(u)), True))):
+            okk, rk = c.lib(site, f)
+            if okk:
+                c.eq(site + "/value", rk, u, 0)
     if n in (1, 3):
         ok, S = c.lib("skew", b.skew, fu)
         if ok:
@@ -303,7 +325,7 @@ def _delta(case):
 
 
 def classify(case):
-    if case.get("kind") in ("hist", "aug", "variant"):
+    if case.get("kind") in ("hist", "aug", "variant", "own"):
         return probes.classify(case)
     k = case["kind"]
     lab = {"kind:" + k: True}
